@@ -29,7 +29,7 @@ import (
 	"github.com/tigerwill90/fox"
 )
 
-const rule = "cases = requests of 27 shapes (direct, two parameters, catch-all, hostname, ignored trailing slash, redirect, 404, 405, auto OPTIONS, manual Lookup with own writer, Lookup with nil writer, CloneWith, infix catch-alls with and without following parameters, 405/OPTIONS whose probing backtracks between hostname labels) " +
+const rule = "cases = requests of 29 shapes (direct, two parameters, catch-all, hostname, ignored trailing slash, redirect, 404, 405, auto OPTIONS, manual Lookup with own writer, Lookup with nil writer, CloneWith, infix catch-alls with and without following parameters, 405/OPTIONS whose probing backtracks between hostname labels) " +
 	"each with a unique token in every observable field, in random order; every handler/middleware invocation compares all Context getters with its own request; clones re-read later; " +
 	"distinct by token; non-trivial when the previous user of the pooled context was a request of a different shape (sequential mode) or always (concurrent mode)"
 
@@ -126,8 +126,15 @@ func verify(c fox.Context, e *expect, where string) {
 			}
 		}
 	}
-	if c.Param("nope") != "" {
-		e.fail("%s: Param(nope)=%q", where, c.Param("nope"))
+	// names that other routes declare, but not the route of this request, have no value here
+	for _, name := range []string{"nope", "tok", "a", "b", "id"} {
+		declared := false
+		for _, p := range e.params {
+			declared = declared || p.Key == name
+		}
+		if !declared && c.Param(name) != "" {
+			e.fail("%s: Param(%s)=%q although the route of this request declares no such parameter", where, name, c.Param(name))
+		}
 	}
 }
 
@@ -149,6 +156,18 @@ func (w *world) handler(kind string) fox.HandlerFunc {
 			e.fail("%s handler ran, expected %s", kind, e.kind)
 		}
 		verify(c, e, kind+" handler")
+		// lookups made while this request is in flight (a handler that consults the router) borrow and release pooled
+		// contexts of their own; this request's context must come out unchanged
+		if n := e.tok[len(e.tok)-1]; n%3 == 0 {
+			for _, lp := range []struct{ host, path string }{{"", "/i/other-" + e.tok}, {"ts.h.com", "/it/other-" + e.tok}, {"x.ts2.com", "/it/o2-" + e.tok}, {"", "/d/other"}} {
+				rq := &http.Request{Method: "GET", Host: lp.host, URL: &url.URL{Path: lp.path}, Header: http.Header{}}
+				if _, cc, _ := c.Fox().Lookup(nil, rq); cc != nil {
+					cc.Close()
+				}
+				_, _ = c.Fox().Reverse("GET", lp.host, lp.path)
+			}
+			verify(c, e, kind+" handler after nested lookups")
+		}
 		wr := c.Writer()
 		if wr.Written() || wr.Size() != 0 || wr.Status() != 200 {
 			e.fail("%s handler: fresh writer shows status=%d size=%d written=%t", kind, wr.Status(), wr.Size(), wr.Written())
@@ -317,6 +336,8 @@ func newWorldWith(run *kit.Run, forward bool) *world {
 	f.MustHandle("GET", "/x/*{tok}/end", h)
 	f.MustHandle("GET", "/y/*{a}/mid/*{tok}/end/", h, fox.WithIgnoreTrailingSlash(true))
 	f.MustHandle("GET", "/z/*{a}/m/{tok}/{b}", h)
+	f.MustHandle("GET", "ts.h.com/it/{tok}/", h, fox.WithIgnoreTrailingSlash(true))
+	f.MustHandle("GET", "{a}.ts2.com/it/{tok}/", h, fox.WithIgnoreTrailingSlash(true))
 	// hostname routes of other methods whose probing (405 / automatic OPTIONS) has to backtrack between hostname labels
 	f.MustHandle("POST", "{a}.b.com/hp/{tok}", h)
 	f.MustHandle("POST", "{a}.{b}.com/hq/{tok}", h)
@@ -324,7 +345,7 @@ func newWorldWith(run *kit.Run, forward bool) *world {
 	return w
 }
 
-var shapes = []string{"ignored-tsr-static", "infix", "infix2-tsr", "direct", "two", "catchall", "host", "ignored-tsr", "redirect", "404", "405", "options", "options-star", "lookup", "lookup-nil", "clonewith", "static-then-param", "infix-then-params", "405-hostparam", "options-hostparam", "txn-lookup", "txn-lookup-nil", "writetxn-lookup", "setrequest", "escaped", "setwriter", "hijack"}
+var shapes = []string{"ignored-tsr-static", "infix", "infix2-tsr", "direct", "two", "catchall", "host", "ignored-tsr", "redirect", "404", "405", "options", "options-star", "lookup", "lookup-nil", "clonewith", "static-then-param", "infix-then-params", "405-hostparam", "options-hostparam", "txn-lookup", "txn-lookup-nil", "writetxn-lookup", "setrequest", "escaped", "setwriter", "hijack", "host-ignored-tsr", "hostparam-ignored-tsr"}
 
 type respW struct {
 	h      http.Header
@@ -406,6 +427,10 @@ func (w *world) issue(n int64, shape string) *expect {
 		host, path, e.pattern, e.params = "h.com", "/h/"+tok, "h.com/h/{tok}", []fox.Param{P("tok", tok)}
 	case "ignored-tsr":
 		path, e.pattern, e.params = "/i/"+tok, "/i/{tok}/", []fox.Param{P("tok", tok)}
+	case "host-ignored-tsr":
+		host, path, e.pattern, e.params = "ts.h.com", "/it/"+tok, "ts.h.com/it/{tok}/", []fox.Param{P("tok", tok)}
+	case "hostparam-ignored-tsr":
+		host, path, e.pattern, e.params = "a"+tok+".ts2.com", "/it/"+tok, "{a}.ts2.com/it/{tok}/", []fox.Param{P("a", "a"+tok), P("tok", tok)}
 	case "redirect":
 		path, e.kind, e.scope = "/r/"+tok, "redirect", fox.RedirectHandler
 	case "404":
